@@ -519,6 +519,13 @@ class ExampleDataset:
 _REUSED = {}
 
 
+def cleanup_reused():
+    for (pid, tag), d in list(_REUSED.items()):
+        if pid == os.getpid():
+            shutil.rmtree(d, ignore_errors=True)
+            del _REUSED[(pid, tag)]
+
+
 def reused_dir(tag):
     """One directory per process and tag, re-used by successive cases (its files are rewritten): users re-run
     calculations in the same directory, so nothing may be remembered about a path.  Removed at interpreter exit."""
